@@ -140,6 +140,7 @@ type Engine struct {
 	locks       map[string]int
 	wg          map[string]int
 	syncMaps    map[string]*MapObj
+	randReads   int
 	// threads (threads.go)
 	threads     []*thread
 	cur         *thread
@@ -525,6 +526,7 @@ func (e *Engine) resetPath() {
 	e.locks = nil
 	e.wg = nil
 	e.syncMaps = nil
+	e.randReads = 0
 	e.threads, e.cur, e.syncVC, e.access, e.mapAccess = nil, nil, nil, nil, nil
 	e.preemptLeft, e.noSched, e.noRace, e.aborting, e.abortVal, e.mtEver = 0, 0, 0, false, nil, false
 	if profiling && e.prof == nil {
